@@ -22,7 +22,7 @@ func init() { register(c17{}) }
 func (c17) ID() string    { return "C17" }
 func (c17) Level() string { return "exploration" }
 func (c17) Rule() string {
-	return "full condition grid. Publish: topic {empty, non-empty} x topic alias {0,1,65535} x QoS {0,1,2,3} x packet identifier {0,1,65535} x DUP x RETAIN, each cell with random other fields, built through the API and (where the wire can express the cell) decoded from a reference-encoded frame. Subscribe: filter count 0..3 x subscription identifier {unset,1,268435454,268435455,268435456,MaxInt32,2^32,2^32+39,MaxInt64} x ALL 256 option bytes in each filter position x filter {empty, non-empty}; TopicFilter alone over 256 x 2. Oracle: the predicate transcribed from the property statement, written independently; the 'malformed!' suffix of String() must appear exactly when WellFormed() is non-nil. distinct = grid cell (+ construction path); non-trivial = all"
+	return "full condition grid. Publish: topic {empty, non-empty} x topic alias {0,1,65535} x QoS {0,1,2,3} x packet identifier {0,1,65535} x DUP x RETAIN, each cell with random other fields, built through the API and (where the wire can express the cell) decoded from a reference-encoded frame. Subscribe: filter count 0..3 x subscription identifier {unset,1,268435454,268435455,268435456,MaxInt32,2^32,2^32+39,MaxInt64} x ALL 256 option bytes in each filter position x filter {empty, non-empty}; TopicFilter alone over 256 x 2. One Subscribe cell in eight (built and decoded) is judged a second time after one of its filters was changed in place through the slice Filters() returns (options |= 3, options &^= 2, filter emptied, filter replaced), the expectation computed from what Filters() then reports. Oracle: the predicate transcribed from the property statement, written independently; the 'malformed!' suffix of String() must appear exactly when WellFormed() is non-nil. distinct = grid cell (+ construction path); non-trivial = all"
 }
 func (c17) Assumptions() []string {
 	return []string{"generated strings never contain the text 'malformed!'"}
@@ -300,6 +300,9 @@ func (c17) Run(c *run.Ctx, phase, idx int) {
 				}
 				det := map[string]interface{}{"cell": cell}
 				c17Judge(c, "Subscribe", cell, "api", want, p.WellFormed, p.String, det)
+				if count > 0 && subID <= 268435455 && opt%8 == 1 {
+					c17Rejudge(c, r, p, cell, "api", det)
+				}
 				if count > 0 && subID <= 268435455 {
 					a := &ref.Packet{Type: ref.TSubscribe, Flags: 2, PacketID: 7, Subs: subs}
 					if subID >= 0 {
@@ -318,6 +321,9 @@ func (c17) Run(c *run.Ctx, phase, idx int) {
 					}
 					dp := res.Pkt.(*mq.Subscribe)
 					c17Judge(c, "Subscribe", cell, "wire", want, dp.WellFormed, dp.String, det)
+					if opt%8 == 5 {
+						c17Rejudge(c, r, dp, cell, "wire", det)
+					}
 					if subID >= 0 && opt%64 == 1 {
 						// the same frame with the subscription identifier written
 						// twice (a decoder may refuse it; if it takes it, the
@@ -377,4 +383,48 @@ func b2i(b bool) byte {
 		return 1
 	}
 	return 0
+}
+
+// c17Rejudge changes one filter of a SUBSCRIBE that was already judged (so
+// WellFormed and String have run on it) in place, through the slice Filters()
+// returns, and judges the packet again - by what Filters() reports afterwards,
+// so a library that hands out a copy is judged by its own state. Only called
+// on cells whose other rules (filter count, subscription identifier) hold.
+// A verdict remembered from the first call shows here (round 11, U5-b).
+func c17Rejudge(c *run.Ctx, r *gen.RNG, p *mq.Subscribe, cell, path string, det map[string]interface{}) {
+	fs := p.Filters()
+	if len(fs) == 0 {
+		return
+	}
+	i := r.Intn(len(fs))
+	how := ""
+	switch r.Intn(4) {
+	case 0:
+		fs[i].SetOptions(mq.Opt(byte(fs[i].Options()) | 3))
+		how = "options|=3"
+	case 1:
+		fs[i].SetFilter("")
+		how = "filter=empty"
+	case 2:
+		fs[i].SetOptions(mq.Opt(byte(fs[i].Options()) &^ 2))
+		how = "options&^=2"
+	default:
+		fs[i].SetFilter("re/paired")
+		how = "filter=non-empty"
+	}
+	want := false
+	for _, f := range p.Filters() {
+		if f.Filter() == "" || byte(f.Options())&3 == 3 {
+			want = true
+		}
+	}
+	cell2 := fmt.Sprintf("%s | then filter %d %s in place", cell, i, how)
+	det2 := map[string]interface{}{"cell": cell2}
+	for k, v := range det {
+		if k != "cell" {
+			det2[k] = v
+		}
+	}
+	c.Count("rejudged", path+"/"+how+"/"+map[bool]string{true: "malformed", false: "well-formed"}[want], 1)
+	c17Judge(c, "Subscribe", cell2, path+"+changed-in-place", want, p.WellFormed, p.String, det2)
 }
